@@ -465,7 +465,11 @@ impl Par for GdsBox {
 
 /// L2a / R2: one element, flattened by the real writer (or by the reference), parsed back by the real parse_<kind>
 fn elem_rt_body<S: Src, E: Par + core::fmt::Debug>(s: &mut S, mask: u32, slen: usize, npts: usize, from_writer: bool) {
-    let e = E::sym(s, mask, slen, npts);
+    elem_rt_body_pin::<S, E>(s, mask, slen, npts, from_writer, 255)
+}
+fn elem_rt_body_pin<S: Src, E: Par + core::fmt::Debug>(s: &mut S, mask: u32, slen: usize, npts: usize, from_writer: bool, pin: u8) {
+    let mut e = E::sym(s, mask, slen, npts);
+    e.pin(pin);
     vnote!(s, "elem", "{:?}", e);
     let mut want_l = gds_ref::RecList::new();
     e.ref_into(&mut want_l);
@@ -2536,6 +2540,54 @@ pub fn c01_s_l2a_e6_m3<S: Src>(s: &mut S) {
 }
 pub fn c03_s_r2_e6_m3<S: Src>(s: &mut S) {
     elem_rt_body::<S, GdsBox>(s, 3, 1, 2, false)
+}
+pub fn c01_s_l2a_e1_m483_pt0<S: Src>(s: &mut S) {
+    elem_rt_body_pin::<S, GdsPath>(s, 483, 1, 2, true, 0)
+}
+pub fn c03_s_r2_e1_m483_pt0<S: Src>(s: &mut S) {
+    elem_rt_body_pin::<S, GdsPath>(s, 483, 1, 2, false, 0)
+}
+pub fn c01_s_l2a_e1_m483_pt1<S: Src>(s: &mut S) {
+    elem_rt_body_pin::<S, GdsPath>(s, 483, 1, 2, true, 1)
+}
+pub fn c03_s_r2_e1_m483_pt1<S: Src>(s: &mut S) {
+    elem_rt_body_pin::<S, GdsPath>(s, 483, 1, 2, false, 1)
+}
+pub fn c01_q_l2a_e1_m483_pt2<S: Src>(s: &mut S) {
+    elem_rt_body_pin::<S, GdsPath>(s, 483, 1, 2, true, 2)
+}
+pub fn c03_s_r2_e1_m483_pt2<S: Src>(s: &mut S) {
+    elem_rt_body_pin::<S, GdsPath>(s, 483, 1, 2, false, 2)
+}
+pub fn c01_s_l2a_e1_m483_pt4<S: Src>(s: &mut S) {
+    elem_rt_body_pin::<S, GdsPath>(s, 483, 1, 2, true, 4)
+}
+pub fn c03_s_r2_e1_m483_pt4<S: Src>(s: &mut S) {
+    elem_rt_body_pin::<S, GdsPath>(s, 483, 1, 2, false, 4)
+}
+pub fn c01_s_l2a_e4_m639_pt0<S: Src>(s: &mut S) {
+    elem_rt_body_pin::<S, GdsTextElem>(s, 639, 1, 2, true, 0)
+}
+pub fn c03_q_r2_e4_m639_pt0<S: Src>(s: &mut S) {
+    elem_rt_body_pin::<S, GdsTextElem>(s, 639, 1, 2, false, 0)
+}
+pub fn c01_s_l2a_e4_m639_pt1<S: Src>(s: &mut S) {
+    elem_rt_body_pin::<S, GdsTextElem>(s, 639, 1, 2, true, 1)
+}
+pub fn c03_s_r2_e4_m639_pt1<S: Src>(s: &mut S) {
+    elem_rt_body_pin::<S, GdsTextElem>(s, 639, 1, 2, false, 1)
+}
+pub fn c01_s_l2a_e4_m639_pt2<S: Src>(s: &mut S) {
+    elem_rt_body_pin::<S, GdsTextElem>(s, 639, 1, 2, true, 2)
+}
+pub fn c03_s_r2_e4_m639_pt2<S: Src>(s: &mut S) {
+    elem_rt_body_pin::<S, GdsTextElem>(s, 639, 1, 2, false, 2)
+}
+pub fn c01_s_l2a_e4_m639_pt4<S: Src>(s: &mut S) {
+    elem_rt_body_pin::<S, GdsTextElem>(s, 639, 1, 2, true, 4)
+}
+pub fn c03_s_r2_e4_m639_pt4<S: Src>(s: &mut S) {
+    elem_rt_body_pin::<S, GdsTextElem>(s, 639, 1, 2, false, 4)
 }
 pub fn c01_x_l2p_e0_m1024<S: Src>(s: &mut S) {
     elem_rt_body::<S, GdsBoundary>(s, 1024, 1, 2, true)
@@ -4842,6 +4894,22 @@ harnesses! { k, "sel_gds21_read.rs";
     #[kani::stub(std::str::from_utf8, from_utf8_model)] #[kani::stub(crate::data::GdsFloat64::encode, enc_bits)] #[kani::stub(crate::data::GdsFloat64::decode, dec_bits)] #[kani::stub(alloc::fmt::format, fmt_stub)] #[kani::stub(crate::read::GdsParser::next, stub_next)] #[kani::unwind(22)] c03_s_r2_e6_m2;
     #[kani::stub(std::str::from_utf8, from_utf8_model)] #[kani::stub(crate::data::GdsFloat64::encode, enc_bits)] #[kani::stub(crate::data::GdsFloat64::decode, dec_bits)] #[kani::stub(alloc::fmt::format, fmt_stub)] #[kani::stub(crate::read::GdsParser::next, stub_next)] #[kani::unwind(22)] c01_s_l2a_e6_m3;
     #[kani::stub(std::str::from_utf8, from_utf8_model)] #[kani::stub(crate::data::GdsFloat64::encode, enc_bits)] #[kani::stub(crate::data::GdsFloat64::decode, dec_bits)] #[kani::stub(alloc::fmt::format, fmt_stub)] #[kani::stub(crate::read::GdsParser::next, stub_next)] #[kani::unwind(22)] c03_s_r2_e6_m3;
+    #[kani::stub(std::str::from_utf8, from_utf8_model)] #[kani::stub(crate::data::GdsFloat64::encode, enc_bits)] #[kani::stub(crate::data::GdsFloat64::decode, dec_bits)] #[kani::stub(alloc::fmt::format, fmt_stub)] #[kani::stub(crate::read::GdsParser::next, stub_next)] #[kani::unwind(22)] c01_s_l2a_e1_m483_pt0;
+    #[kani::stub(std::str::from_utf8, from_utf8_model)] #[kani::stub(crate::data::GdsFloat64::encode, enc_bits)] #[kani::stub(crate::data::GdsFloat64::decode, dec_bits)] #[kani::stub(alloc::fmt::format, fmt_stub)] #[kani::stub(crate::read::GdsParser::next, stub_next)] #[kani::unwind(22)] c03_s_r2_e1_m483_pt0;
+    #[kani::stub(std::str::from_utf8, from_utf8_model)] #[kani::stub(crate::data::GdsFloat64::encode, enc_bits)] #[kani::stub(crate::data::GdsFloat64::decode, dec_bits)] #[kani::stub(alloc::fmt::format, fmt_stub)] #[kani::stub(crate::read::GdsParser::next, stub_next)] #[kani::unwind(22)] c01_s_l2a_e1_m483_pt1;
+    #[kani::stub(std::str::from_utf8, from_utf8_model)] #[kani::stub(crate::data::GdsFloat64::encode, enc_bits)] #[kani::stub(crate::data::GdsFloat64::decode, dec_bits)] #[kani::stub(alloc::fmt::format, fmt_stub)] #[kani::stub(crate::read::GdsParser::next, stub_next)] #[kani::unwind(22)] c03_s_r2_e1_m483_pt1;
+    #[kani::stub(std::str::from_utf8, from_utf8_model)] #[kani::stub(crate::data::GdsFloat64::encode, enc_bits)] #[kani::stub(crate::data::GdsFloat64::decode, dec_bits)] #[kani::stub(alloc::fmt::format, fmt_stub)] #[kani::stub(crate::read::GdsParser::next, stub_next)] #[kani::unwind(22)] c01_q_l2a_e1_m483_pt2;
+    #[kani::stub(std::str::from_utf8, from_utf8_model)] #[kani::stub(crate::data::GdsFloat64::encode, enc_bits)] #[kani::stub(crate::data::GdsFloat64::decode, dec_bits)] #[kani::stub(alloc::fmt::format, fmt_stub)] #[kani::stub(crate::read::GdsParser::next, stub_next)] #[kani::unwind(22)] c03_s_r2_e1_m483_pt2;
+    #[kani::stub(std::str::from_utf8, from_utf8_model)] #[kani::stub(crate::data::GdsFloat64::encode, enc_bits)] #[kani::stub(crate::data::GdsFloat64::decode, dec_bits)] #[kani::stub(alloc::fmt::format, fmt_stub)] #[kani::stub(crate::read::GdsParser::next, stub_next)] #[kani::unwind(22)] c01_s_l2a_e1_m483_pt4;
+    #[kani::stub(std::str::from_utf8, from_utf8_model)] #[kani::stub(crate::data::GdsFloat64::encode, enc_bits)] #[kani::stub(crate::data::GdsFloat64::decode, dec_bits)] #[kani::stub(alloc::fmt::format, fmt_stub)] #[kani::stub(crate::read::GdsParser::next, stub_next)] #[kani::unwind(22)] c03_s_r2_e1_m483_pt4;
+    #[kani::stub(std::str::from_utf8, from_utf8_model)] #[kani::stub(crate::data::GdsFloat64::encode, enc_bits)] #[kani::stub(crate::data::GdsFloat64::decode, dec_bits)] #[kani::stub(alloc::fmt::format, fmt_stub)] #[kani::stub(crate::read::GdsParser::next, stub_next)] #[kani::unwind(22)] c01_s_l2a_e4_m639_pt0;
+    #[kani::stub(std::str::from_utf8, from_utf8_model)] #[kani::stub(crate::data::GdsFloat64::encode, enc_bits)] #[kani::stub(crate::data::GdsFloat64::decode, dec_bits)] #[kani::stub(alloc::fmt::format, fmt_stub)] #[kani::stub(crate::read::GdsParser::next, stub_next)] #[kani::unwind(22)] c03_q_r2_e4_m639_pt0;
+    #[kani::stub(std::str::from_utf8, from_utf8_model)] #[kani::stub(crate::data::GdsFloat64::encode, enc_bits)] #[kani::stub(crate::data::GdsFloat64::decode, dec_bits)] #[kani::stub(alloc::fmt::format, fmt_stub)] #[kani::stub(crate::read::GdsParser::next, stub_next)] #[kani::unwind(22)] c01_s_l2a_e4_m639_pt1;
+    #[kani::stub(std::str::from_utf8, from_utf8_model)] #[kani::stub(crate::data::GdsFloat64::encode, enc_bits)] #[kani::stub(crate::data::GdsFloat64::decode, dec_bits)] #[kani::stub(alloc::fmt::format, fmt_stub)] #[kani::stub(crate::read::GdsParser::next, stub_next)] #[kani::unwind(22)] c03_s_r2_e4_m639_pt1;
+    #[kani::stub(std::str::from_utf8, from_utf8_model)] #[kani::stub(crate::data::GdsFloat64::encode, enc_bits)] #[kani::stub(crate::data::GdsFloat64::decode, dec_bits)] #[kani::stub(alloc::fmt::format, fmt_stub)] #[kani::stub(crate::read::GdsParser::next, stub_next)] #[kani::unwind(22)] c01_s_l2a_e4_m639_pt2;
+    #[kani::stub(std::str::from_utf8, from_utf8_model)] #[kani::stub(crate::data::GdsFloat64::encode, enc_bits)] #[kani::stub(crate::data::GdsFloat64::decode, dec_bits)] #[kani::stub(alloc::fmt::format, fmt_stub)] #[kani::stub(crate::read::GdsParser::next, stub_next)] #[kani::unwind(22)] c03_s_r2_e4_m639_pt2;
+    #[kani::stub(std::str::from_utf8, from_utf8_model)] #[kani::stub(crate::data::GdsFloat64::encode, enc_bits)] #[kani::stub(crate::data::GdsFloat64::decode, dec_bits)] #[kani::stub(alloc::fmt::format, fmt_stub)] #[kani::stub(crate::read::GdsParser::next, stub_next)] #[kani::unwind(22)] c01_s_l2a_e4_m639_pt4;
+    #[kani::stub(std::str::from_utf8, from_utf8_model)] #[kani::stub(crate::data::GdsFloat64::encode, enc_bits)] #[kani::stub(crate::data::GdsFloat64::decode, dec_bits)] #[kani::stub(alloc::fmt::format, fmt_stub)] #[kani::stub(crate::read::GdsParser::next, stub_next)] #[kani::unwind(22)] c03_s_r2_e4_m639_pt4;
     #[kani::stub(std::str::from_utf8, from_utf8_model)] #[kani::stub(crate::data::GdsFloat64::encode, enc_bits)] #[kani::stub(crate::data::GdsFloat64::decode, dec_bits)] #[kani::stub(alloc::fmt::format, fmt_stub)] #[kani::stub(crate::read::GdsParser::next, stub_next)] #[kani::unwind(22)] c01_x_l2p_e0_m1024;
     #[kani::stub(std::str::from_utf8, from_utf8_model)] #[kani::stub(crate::data::GdsFloat64::encode, enc_bits)] #[kani::stub(crate::data::GdsFloat64::decode, dec_bits)] #[kani::stub(alloc::fmt::format, fmt_stub)] #[kani::stub(crate::read::GdsParser::next, stub_next)] #[kani::unwind(22)] c03_x_r2p_e0_m1024;
     #[kani::stub(std::str::from_utf8, from_utf8_model)] #[kani::stub(crate::data::GdsFloat64::encode, enc_bits)] #[kani::stub(crate::data::GdsFloat64::decode, dec_bits)] #[kani::stub(alloc::fmt::format, fmt_stub)] #[kani::stub(crate::read::GdsParser::next, stub_next)] #[kani::unwind(22)] c01_x_l2p_e0_m1027;
